@@ -444,6 +444,29 @@ fn inspections(pool: &[KeyInfo], b: &SBlock, d: &SDir, path: &str, out: &mut Vec
 /// name the link directory through a symbolic link and `..` in the next verifications
 pub static SPELL_LINK_DIR: std::sync::Mutex<bool> = std::sync::Mutex::new(false);
 
+thread_local! {
+    /// this thread verifies next to others: do not touch the process's working directory
+    pub static NO_CHDIR: std::cell::Cell<bool> = const { std::cell::Cell::new(false) };
+}
+
+/// does any layout of the scenario - the top one or a delegated one - list an inspection?
+pub fn has_inspections(b: &SBlock, d: &SDir) -> bool {
+    let own = matches!(&b.meta, SMeta::Layout(l) if !l.inspect.is_empty());
+    own || d.files.iter().any(|(_, f)| matches!(f, SFile::Block(fb) if has_inspections(fb, &SDir::default())))
+        || d.subs.iter().any(|(_, sd)| sd.files.iter().any(|(_, f)| matches!(f, SFile::Block(fb) if has_inspections(fb, &SDir::default()))))
+}
+
+/// The scenarios verified at the same time, one thread each; the answers in the order of the scenarios.
+pub fn run_concurrently(pool: &[KeyInfo], scenarios: &[Scenario]) -> Vec<String> {
+    std::thread::scope(|sc| {
+        let handles: Vec<_> = scenarios.iter().map(|s| sc.spawn(move || {
+            NO_CHDIR.with(|c| c.set(true));
+            run(pool, s).answer
+        })).collect();
+        handles.into_iter().map(|h| h.join().unwrap_or_else(|_| "thread-panicked".to_string())).collect()
+    })
+}
+
 pub static PROCESS_TZ: std::sync::Mutex<Option<String>> = std::sync::Mutex::new(None);
 
 pub struct Outcome {
@@ -554,8 +577,13 @@ pub fn run_at(pool: &[KeyInfo], s: &Scenario, root: &Path, reversed: bool) -> Ou
         };
         keys.insert(id, pool[k].public().clone());
     }
-    let old = std::env::current_dir().unwrap();
-    std::env::set_current_dir(&cwd).unwrap();
+    // (several verifications at once, on threads of their own, leave the process's working directory alone:
+    // they are scenarios without inspections, which is all the working directory is for)
+    let chdir = !NO_CHDIR.with(|c| c.get());
+    let old = if chdir { std::env::current_dir().unwrap() } else { PathBuf::new() };
+    if chdir {
+        std::env::set_current_dir(&cwd).unwrap();
+    }
     let links_str = if spelled { tmp.join("hop").join("..").join("links").to_str().unwrap().to_string() } else { links.to_str().unwrap().to_string() };
     let name = s.name.clone();
     let refile = s.mem_refile;
@@ -592,7 +620,9 @@ pub fn run_at(pool: &[KeyInfo], s: &Scenario, root: &Path, reversed: bool) -> Ou
     if tz.is_some() {
         std::env::remove_var("TZ");
     }
-    std::env::set_current_dir(&old).unwrap();
+    if chdir {
+        std::env::set_current_dir(&old).unwrap();
+    }
     // events: what the inspection scripts logged
     let log = std::fs::read_to_string(cwd.join("run.log")).unwrap_or_default();
     let mut events: Vec<String> = log.lines().map(|l| l.to_string()).collect();
